@@ -794,6 +794,32 @@ class PathEnumerator:
                 if len(cbs) <= 1:
                     mapped = (it[2], tuple(conds), cbs[0] if cbs else None)
                     it = dom
+            if mapped is not None and self.unroll_literal_loops and it[0] in ("tuple", "list") and 0 < len(it[1]) <= 8 and not st.orelse \
+                    and not any(x[0] == "star" for x in it[1]):
+                # a filtered / mapped walk over a display: one guarded step per item
+                live, done = [p], []
+                for item in it[1]:
+                    mp_i = {mapped[2]: item} if mapped[2] is not None else {}
+                    c_i = t_and(*[subst(c, mp_i) for c in mapped[1]]) if mapped[1] else TRUE
+                    v_i = subst(mapped[0], mp_i)
+                    nxt: List[Path] = []
+                    for q in live:
+                        q_yes, q_no = q.fork(c_i), q.fork(t_not(c_i))
+                        if self.feasible(q_no.cond) and c_i != TRUE:
+                            nxt.append(q_no)
+                        if self.feasible(q_yes.cond):
+                            self._assign(st.target, v_i, q_yes, self._frame(fr, q_yes), st)
+                            for r in self.block(st.body, [q_yes], fr):
+                                if r.exit in ("fall", "continue"):
+                                    r.exit, r.exit_node = "fall", None
+                                    nxt.append(r)
+                                elif r.exit == "break":
+                                    r.exit, r.exit_node = "fall", None
+                                    done.append(r)
+                                else:
+                                    done.append(r)
+                    live = nxt
+                return done + live
             bound = ("bound", "for", st.lineno, show(it))
             bf = Frame(fr.fn, fr.module, body_env, fr.self_cls, fr.depth)
             ec = ev.elem_type(it)
